@@ -180,7 +180,8 @@ func HarnessCancelDuringTraffic() {
 	for i := 0; i < n; i++ {
 		verif.Assert(res[i].returns == 1, "every-call-returns-exactly-once")
 		if i == 0 {
-			verif.Assert(res[i].err != nil || res[i].val == 10, "cancelled-call-own-result-or-error")
+			// the peer answers every request, so even the cancelled call gets the response produced for it
+			verif.Assert(res[i].err == nil && res[i].val == 10, "cancelled-call-still-gets-the-response-to-its-own-request")
 		} else {
 			verif.Assert(res[i].err == nil && res[i].val == int64(10+i), "other-calls-get-their-own-results")
 		}
